@@ -35,6 +35,8 @@ func runC14(c *Ctx) {
 	c.Rule("C14.O7", "E5", "a WebSocket connection's executor is its parser's or the bound Execute of its nbio.Conn, never the inline executor on a poller-served connection (same rule as C05.O6): the close job must queue behind running message callbacks", 8)
 	wsExecutorStores(c, "C14.O7")
 	c.Rule("C14.O9", "E4", "a connection transferred to the poller is registered (AddTransferredConn) only after its open handler has run, or its callbacks are queued behind it: otherwise a message that arrives right after the handshake is handled while the open handler is still running", 2)
+	c.Rule("C14.O11", "E4", "the blocking readers honour a hand-over that happened inside a failing Parse: every exit after Parse passes the Parser.ParserCloser test (or is the transferred edge), so a WebSocket connection created by an upgrade in the same read as a bad frame is cleaned up and its close callback runs", 2)
+	c14ReaderHandOver(c)
 	c.Rule("C14.O10", "E5", "the close callback runs after the message callbacks: inside the websocket package CloseAndClean is called only from the deferred cleanup of the function that runs the blocking read loop (every other closer goes through the connection's Close and leaves the callback to the reader or to the engine's close hook)", 1)
 	c14WhoCleans(c)
 	c14TransferAfterOpen(c)
@@ -523,5 +525,47 @@ func c14WhoCleans(c *Ctx) {
 			}
 			c.Cond(ok, "C14.O10", key, c.Pos(cs.In), "deferred cleanup of the read loop", why)
 		}
+	}
+}
+
+// c14ReaderHandOver: O11.
+func c14ReaderHandOver(c *Ctx) {
+	for _, name := range []string{"(*nbhttp.Engine).readConnBlocking", "(*nbhttp.Engine).readTLSConnBlocking"} {
+		fn := c.Fn("C14.O11", name)
+		if fn == nil {
+			continue
+		}
+		var parses []ssa.Instruction
+		for _, cs := range c.P.Calls(fn, func(name string, _ ir.CallSite) bool { return name == "invoke:nbhttp.ParserCloser.Parse" }) {
+			parses = append(parses, cs.In)
+		}
+		key := fnKey(c.P, fn, "hand-over before the error return")
+		if len(parses) == 0 {
+			c.Unres("C14.O11", key, "Parse call not found")
+			continue
+		}
+		fi2 := c.P.Info(fn)
+		bad2 := ""
+		for _, esc := range fi2.EscapesWithout(parses, func(in ssa.Instruction) bool {
+			if u, ok := in.(*ssa.UnOp); ok && c.P.LoadedField(u) == "nbhttp.Parser.ParserCloser" {
+				return true
+			}
+			// `parser != nil && parser.ParserCloser != nil`: a nil parser means the hand-over is done
+			if i, ok := in.(*ssa.If); ok {
+				if x, _, isN := ir.NilTest(i.Cond, true); isN && x.Type().String() == "*github.com/lesismal/nbio/nbhttp.Parser" {
+					return true
+				}
+			}
+			return false
+		}) {
+			if fi2.HasFact(esc, func(ft ir.Fact) bool {
+				k, set, ok := c.P.BoolFieldTest(ft.Cond, ft.Truth)
+				return ok && k == "nbhttp.Conn.Trasfered" && set
+			}) {
+				continue
+			}
+			bad2 = "the reader can leave at " + c.Pos(esc) + " after Parse without looking at Parser.ParserCloser: when the upgrade request and a failing frame arrive in one read, the WebSocket connection created inside that Parse is never cleaned up and its close callback never runs"
+		}
+		c.Cond(bad2 == "", "C14.O11", key, c.Pos(parses[0]), "every exit after Parse passes the ParserCloser test (or is the transferred edge)", bad2)
 	}
 }
